@@ -744,6 +744,9 @@ def check_case(case, rec):
         else:
             df = run_it(case, ana)
     except Exception as e:
+        if isinstance(e, ValueError) and 'Chebyshev input coordinates' in str(e):
+            rec.cls('chebyshev-out-of-norm-skipped')     # documented precondition of that geometry (a perturbed trial left it)
+            return
         if mode in ('extreme', 'failpoint'):
             from vkit.runner import classify_exception
             kind, where = classify_exception(e)
